@@ -55,6 +55,19 @@ std::string blk(const std::vector<std::string>& a) {
             parse_ts(p[1], g.ts);
             if (p[3] == "1") g.client_port = 53;
             block.add_malformed_message(g);
+        } else if (p[0] == "Q") {
+            // directly built item: add_question_response_record(const QueryResponse&) with per-block statistics
+            CDNS::QueryResponse q;
+            parse_ts(p[1], q.time_offset);
+            if (p[3] == "1") q.client_port = 53;
+            CDNS::BlockStatistics st; st.processed_messages = 7;
+            block.add_question_response_record(q, (i % 2) ? boost::optional<CDNS::BlockStatistics>(st) : boost::none);
+        } else if (p[0] == "M") {
+            CDNS::MalformedMessage m;
+            parse_ts(p[1], m.time_offset);
+            if (p[3] == "1") m.client_port = 53;
+            CDNS::BlockStatistics st; st.malformed_items = 3;
+            block.add_malformed_message(m, (i % 2) ? boost::optional<CDNS::BlockStatistics>(st) : boost::none);
         } else if (p[0] == "c") {
             block.clear();
         } else return "bad-op";
